@@ -17,7 +17,8 @@ RULE = ('Byte contents (empty, arbitrary binary incl. NUL / 0x80-0xFF / newlines
         'several MB under the default 500 MB limit and under 2 / 4 MB environment limits; explicit limits also with the '
         'environment variable set to a different value - the explicit limit counts) x path '
         'passed positionally or by keyword x instance and static interceptions x input and output file data handlers x '
-        'cassette type (in-memory, file, S3, async), always through a full program: record -> cassette -> fetch -> '
+        'cassette type (in-memory, file, S3, async) x replay path empty or already holding a file of the same / another '
+        'size, always through a full program: record -> cassette -> fetch -> '
         'replay. Oracle: the file found at the path named by the REPLAYED call holds the recorded bytes (<= limit) or '
         'the documented placeholder (> limit); restore_output_from_recording of the recorded and of the replayed output '
         'gives a holder with those bytes / the placeholder and the recorded path, and to_file writes them; above the '
@@ -129,6 +130,13 @@ def check_file_case(ctx, case):
         # replay at other paths
         state['world'] = 'REPLAY'
         p2, o2 = os.path.join(work, 'in2'), os.path.join(work, 'out2')
+        pre = case.get('preexisting')
+        if pre is not None:
+            # something is already at the path the replayed call names (left over from another run)
+            n_pre = {'same-size': len(exp_in if len(content) > limit_bytes else content), 'shorter': 1,
+                     'longer': len(content) + 3}[pre]
+            with open(p2, 'wb') as f:
+                f.write(b'\xee' * n_pre)
         res = {}
         pb = rec.play(rid, lambda r: res.setdefault('n', Op().execute(p2, o2)))
         if [b for b in state['bodies'] if b[1] == 'REPLAY']:
@@ -185,7 +193,7 @@ def check_file_case(ctx, case):
         'over-limit' if over else 'within-limit', 'explicit+env' if case.get('env_also') is not None else
         'env-limit' if case.get('env_limit') is not None else 'default-limit' if case.get('default_limit') else
         'explicit-limit', 'size:>1MB' if len(content) > 2 ** 20 else 'size:<=1MB',
-        'size:near-limit' if near else 'size:other', 'empty' if not content else 'nonempty'))
+        'size:near-limit' if near else 'size:other', 'preexisting:%s' % case.get('preexisting'), 'empty' if not content else 'nonempty'))
 
 
 PLACEHOLDER_HEX = binascii.hexlify(b'above interception limit').decode()
@@ -215,6 +223,7 @@ def cases(draw):
         case['limit_bytes'] = limit
     if 'limit_bytes' in case:
         case['env_also'] = draw(st.sampled_from([None, None, 0, 500, 1]))
+    case['preexisting'] = draw(st.sampled_from([None, None, 'same-size', 'same-size', 'shorter', 'longer']))
     case['content'] = binascii.hexlify(content).decode()
     return case
 
